@@ -36,7 +36,15 @@ func chipMoverInvariant(sub *Ctx, o *Obligation) bool {
 		return false
 	}
 	m := sub.chipMover(sub.engine())
-	return m != nil && strings.HasSuffix(o.Key, "/"+fnKey(m))
+	if m == nil {
+		return false
+	}
+	for f := range sub.moverFamily(m) {
+		if strings.HasSuffix(o.Key, "/"+fnKey(f)) {
+			return true
+		}
+	}
+	return false
 }
 
 // minRaiseSurvivesReload keeps C07's obligations about the serialised form of the state as far as
